@@ -253,6 +253,9 @@ type nothingRanCase struct {
 	Kind    string   `json:"kind"`    // compile | parse
 	Battery []*Node  `json:"battery"`
 	Names   []string `json:"names"`
+	Extra   string   `json:"extra,omitempty"`         // text evaluated after the prefix on both interpreters (macro definitions)
+	ExtraB  []string `json:"extra_battery,omitempty"` // later evaluations given as text (macro uses)
+	Bare    string   `json:"bare,omitempty"`          // the malformed form alone, when it fails in every context: then the wrapped text must fail too
 }
 
 var malformedForms = []string{"(let)", "(let [a])", "(let [a 1])", "(cond 1 2)", "(for [1 2])", "(for)", "(break 5)", "(break)", "(continue)", "(def)", "(def a)", "(set)", "(fn)", "(fn a 1)", "(defn)", "(defn zq)", "(letseq [1 2] 3)", "(mdef)", "(assert)", "(assert 1 2)", "(defmac)", "(quote", "(for [(def i 0) true] 1)"}
@@ -272,12 +275,28 @@ func checkNothingRan(c nothingRanCase) *ev.Failure {
 		if r := in.eval(pre); r.Panic != "" || r.Err != nil || r.Budget {
 			return nil // prefix itself fails: not this sub-check
 		}
+		if c.Extra != "" {
+			if r := in.eval(c.Extra); r.Panic != "" || r.Err != nil || r.Budget {
+				return nil
+			}
+		}
 	}
 	r := a.eval(c.Failing)
 	if r.Panic != "" {
 		return mk("panic-escapes", "a Go panic escaped EvalString", "error", r.Panic)
 	}
 	if r.Err == nil {
+		if c.Bare != "" {
+			// every wrapper evaluates the malformed form as code: if the form alone is an
+			// error, so is the wrapped text; a value here means the error was swallowed
+			w := newC05Interp(0, "error")
+			defer w.env.Close()
+			if rp := w.eval(pre); rp.Panic == "" && rp.Err == nil && !rp.Budget {
+				if rb := w.eval(c.Bare); rb.Err != nil && rb.Panic == "" {
+					return mk("error-swallowed", "the form "+c.Bare+" alone is an error ("+firstLine(rb.Err.Error())+") but buried in code it evaluates to a value", "an error", dumpOr(r))
+				}
+			}
+		}
 		// the text was accepted after all: then it is not a failing text; nothing to check
 		return nil
 	}
@@ -300,6 +319,18 @@ func checkNothingRan(c nothingRanCase) *ev.Failure {
 		}
 	}
 	a.trace, b.trace = nil, nil
+	for _, text := range c.ExtraB {
+		ra, rb := a.eval(text+"\n"), b.eval(text+"\n")
+		if ra.Panic != "" {
+			return mk("panic-escapes", "later evaluation panics: "+text, "", ra.Panic)
+		}
+		if rb.Panic != "" || ra.Budget || rb.Budget {
+			return nil
+		}
+		if (ra.Err != nil) != (rb.Err != nil) || (ra.Err == nil && dump(ra.Val) != dump(rb.Val)) || strings.Join(a.trace, "|") != strings.Join(b.trace, "|") {
+			return mk("later-evaluation-differs", "after the failure, "+text+" behaves differently from the twin", fmt.Sprint(dumpOr(rb), " err=", rb.Err, " ", b.trace), fmt.Sprint(dumpOr(ra), " err=", ra.Err, " ", a.trace))
+		}
+	}
 	for i, f := range c.Battery {
 		ra, rb := a.eval(f.Render()+"\n"), b.eval(f.Render()+"\n")
 		if ra.Panic != "" {
@@ -379,7 +410,16 @@ func globalNames(g *gen) []string {
 // wrapMalformed buries a malformed form inside pure (effect-free) context
 func wrapMalformed(t *rapid.T, bad string) string {
 	for i := rapid.IntRange(0, 3).Draw(t, "wrapdepth"); i > 0; i-- {
-		switch rapid.IntRange(0, 7).Draw(t, "wrapk") {
+		switch rapid.IntRange(0, 11).Draw(t, "wrapk") {
+		case 8:
+			// unquoted inside a template: still code
+			bad = "^(1 ~" + bad + " 3)"
+		case 9:
+			bad = "^[~" + bad + "]"
+		case 10:
+			bad = "(len ^(a ~@" + bad + "))"
+		case 11:
+			bad = "^{k: ~" + bad + "}"
 		case 0:
 			bad = "(and 1 " + bad + ")"
 		case 1:
@@ -404,8 +444,8 @@ func wrapMalformed(t *rapid.T, bad string) string {
 func TestC05(t *testing.T) {
 	p := begin(t, "C05")
 	r := p.r
-	r.SetRule("inject: generated core-language program with (probe k) calls at all depths (arguments, loop bodies, let bindings, map/apply callbacks, function bodies, and in a lazy argument kept in a global that is forced in the program and again by the later evaluations) = prefix; for EVERY k from 1 to the number of probe calls of the fault-free reference run (<=12) the host function probe fails on its k-th call, by returning an error or by a Go panic; the program is given as one text or one text per top-level form. Oracles: the evaluation returns an error (never a value); effects up to the failure equal the reference run with the same injected failure; VM stacks at rest (hooks); EvalString(\"\") = nil; every global of the name pool is bound iff bound in the reference's global frame at the failure, with an equal value; a generated battery of later evaluations (calls of the prefix's functions, loops, fresh definitions) agrees with the reference continuation form by form. nothingran: a malformed special form (23 shapes) buried under and/or/cond/let/fn/for/argument context, or a text with a parse error (13 shapes), evaluated after a generated prefix; twin interpreter that never saw the failing text is the oracle for state and battery. Non-trivial: failure at call depth >=1 or inside a loop/let/callback and the prefix defined >=2 things. Distinct by (program text, k, mode).")
-	r.Assume("failing texts of the nothingran sub-check contain no effects before the malformed form, so 'nothing ran' holds whether zygo reports the error at compile time or at run time", "defmac is not generated (it takes effect at compile time)")
+	r.SetRule("inject: generated core-language program with (probe k) calls at all depths (arguments, loop bodies, let bindings, map/apply callbacks, function bodies, and in a lazy argument kept in a global that is forced in the program and again by the later evaluations) = prefix; for EVERY k from 1 to the number of probe calls of the fault-free reference run (<=12) the host function probe fails on its k-th call, by returning an error or by a Go panic; the program is given as one text or one text per top-level form. Oracles: the evaluation returns an error (never a value); effects up to the failure equal the reference run with the same injected failure; VM stacks at rest (hooks); EvalString(\"\") = nil; every global of the name pool is bound iff bound in the reference's global frame at the failure, with an equal value; a generated battery of later evaluations (calls of the prefix's functions, loops, fresh definitions) agrees with the reference continuation form by form. nothingran: a malformed special form (23 shapes) buried under and/or/cond/let/fn/for/argument context or unquoted inside a list/array/hash template (the wrapped text must fail whenever the form alone fails: errors are never swallowed), or a text with a parse error (13 shapes), evaluated after a generated prefix; twin interpreter that never saw the failing text is the oracle for state and battery. Non-trivial: failure at call depth >=1 or inside a loop/let/callback and the prefix defined >=2 things. Distinct by (program text, k, mode).")
+	r.Assume("failing texts of the nothingran sub-check contain no effects before the malformed form, so 'nothing ran' holds whether zygo reports the error at compile time or at run time", "defmac appears only in the nothingran sub-check, as a definition made by an EARLIER evaluation and as a redefinition that fails to compile (a defmac that succeeds takes effect at compile time, before the rest of its text runs)")
 
 	p.rapidSub("inject", ev.Scale(1200, 160000), func(t *rapid.T) {
 		cfg := c05Cfg
@@ -503,6 +543,7 @@ func TestC05(t *testing.T) {
 		battery := genBattery(g)
 		names := globalNames(g)
 		c := nothingRanCase{Prefix: forms, Battery: battery, Names: names}
+		labelsRedef := false
 		if rapid.IntRange(0, 2).Draw(t, "parse") == 0 {
 			c.Kind = "parse"
 			c.Failing = rapid.SampledFrom(parseBroken).Draw(t, "broken")
@@ -511,9 +552,33 @@ func TestC05(t *testing.T) {
 			}
 		} else {
 			c.Kind = "compile"
-			c.Failing = wrapMalformed(t, rapid.SampledFrom(malformedForms).Draw(t, "malformed"))
+			bare := rapid.SampledFrom(malformedForms).Draw(t, "malformed")
+			c.Failing = wrapMalformed(t, bare)
+			if rapid.IntRange(0, 3).Draw(t, "macroRedef") == 0 {
+				// a macro (and a function) defined earlier; the failing text is a REdefinition whose body does
+				// not compile, at top level or under eval: the earlier definitions must survive
+				c.Extra = "(defmac mq5 [x] ^(+ ~x 1))\n(defn fq5 [x] (+ x 1))"
+				c.ExtraB = []string{"(trace (mq5 4))", "(trace (fq5 4))", "(defn gq5 [y] (mq5 y))", "(trace (gq5 1))"}
+				target := rapid.SampledFrom([]string{"(defmac mq5 [x] %s ^(* 3 ~x))", "(defn fq5 [x] %s (* 3 x))", "(defmac mq5 [x] ^(* 3 ~x) %s)"}).Draw(t, "redef")
+				c.Failing = fmt.Sprintf(target, c.Failing)
+				if rapid.IntRange(0, 3).Draw(t, "redefEval") == 0 {
+					c.Failing = "(eval (quote " + c.Failing + "))"
+				}
+				labelsRedef = true
+				// a definition's body is not evaluated, and some call shapes are compiled only when they
+				// run: the redefinition may legitimately succeed, so the must-fail rule does not apply
+				c.Bare = ""
+			}
+			if !labelsRedef && bare != "(break)" && bare != "(continue)" {
+				// (break)/(continue) are legal inside the for wrapper; all others fail wherever they are compiled
+				c.Bare = bare
+			}
 		}
-		r.Count("nothingran", ev.Hash64(RenderProgram(forms), c.Failing), len(forms) >= 2, "kind:"+c.Kind)
+		nrLabels := []string{"kind:" + c.Kind}
+		if labelsRedef {
+			nrLabels = append(nrLabels, "failing-redefinition-of-macro-or-function")
+		}
+		r.Count("nothingran", ev.Hash64(RenderProgram(forms), c.Failing), len(forms) >= 2, nrLabels...)
 		r.Sample("nothingran-"+c.Kind, map[string]any{"failing": c.Failing})
 		p.report(t, "nothingran", c, checkNothingRan(c))
 	})
